@@ -140,4 +140,79 @@ theorem dodSums_length (v d1 : I64) (l : List I64) : (dodSums v d1 l).length = l
   | nil => rfl
   | cons d r ih => simp [dodSums, ih]
 
+
+theorem isDelta_shape (a : List I64) (h : isDelta a ≠ (false, false)) : ∃ a0 a1 rest, a = a0 :: a1 :: rest := by
+  unfold isDelta at h
+  split at h
+  · exact ⟨_, _, _, rfl⟩
+  · exact absurd rfl h
+
+theorem dod_branch (a : List I64) (hs : ∃ a0 a1 rest, a = a0 :: a1 :: rest) :
+    ∃ bs fv, int64sDeltaOfDeltaToBytes a = .ok (bs, fv) ∧
+      bytesToInt64List bs mtDeltaOfDelta fv a.length = .ok a := by
+  obtain ⟨a0, a1, rest, rfl⟩ := hs
+  refine ⟨_, _, rfl, ?_⟩
+  have := bytesDeltaOfDeltaToInt64s_rt a0 a1 rest
+  simpa [bytesToInt64List, mtDelta, mtDeltaOfDelta] using this
+
+theorem int64List_rt_exists (a : List I64) (hne : a ≠ []) :
+    ∃ bs mt fv, int64ListToBytes a = .ok (bs, mt, fv) ∧ bytesToInt64List bs mt fv a.length = .ok a := by
+  cases a with
+  | nil => exact absurd rfl hne
+  | cons a0 tl =>
+    unfold int64ListToBytes
+    by_cases hc : isConst (a0 :: tl) = true
+    · simp only [hc, if_true]
+      refine ⟨[], mtConst, a0, rfl, ?_⟩
+      have := isConst_replicate a0 tl hc
+      simp [bytesToInt64List, mtConst, mtDelta, mtDeltaOfDelta]
+      exact this.symm
+    · simp only [hc]
+      cases hd : isDelta (a0 :: tl) with
+      | mk isD isDC =>
+        simp only [Bool.false_eq_true, if_false]
+        cases isDC with
+        | true =>
+          simp only [if_true]
+          obtain ⟨b0, b1, rest, hs⟩ := isDelta_shape (a0 :: tl) (by rw [hd]; simp)
+          simp only [List.cons.injEq] at hs
+          obtain ⟨rfl, rfl⟩ := hs
+          refine ⟨_, _, _, rfl, ?_⟩
+          have hsh := isDelta_const a0 b1 rest isD hd
+          have hr := readVarI64_rt (b1 - a0) []
+          rw [List.append_nil] at hr
+          simp only [bytesToInt64List, mtConst, mtDelta, mtDeltaOfDelta, mtDeltaConst, hr]
+          simp only [List.length_cons]
+          simp [← hsh]
+        | false =>
+          simp only [Bool.false_eq_true, if_false]
+          cases isD with
+          | true =>
+            simp only [if_true]
+            obtain ⟨bs, fv, h1, h2⟩ := dod_branch (a0 :: tl) (isDelta_shape _ (by rw [hd]; simp))
+            rw [h1]
+            exact ⟨_, _, _, rfl, h2⟩
+          | false =>
+            simp only [Bool.false_eq_true, if_false]
+            by_cases hi : isIncremental (a0 :: tl) = true
+            · simp only [hi, if_true]
+              obtain ⟨bs, fv, h1, h2⟩ := dod_branch (a0 :: tl) (isInc_shape _ hi)
+              rw [h1]
+              exact ⟨_, _, _, rfl, h2⟩
+            · simp only [hi]
+              simp only [Bool.false_eq_true, if_false, int64ListDeltaToBytes]
+              refine ⟨_, _, _, rfl, ?_⟩
+              have := bytesDeltaToInt64List_rt a0 tl
+              simpa [bytesToInt64List, mtDelta] using this
+
+/-- functional form: whatever the encoder returned decodes to the input. -/
+theorem int64ListToBytes_rt (a : List I64) (bs : List Byte) (mt : Nat) (fv : I64)
+    (h : int64ListToBytes a = .ok (bs, mt, fv)) : bytesToInt64List bs mt fv a.length = .ok a := by
+  have hne : a ≠ [] := by intro e; subst e; simp [int64ListToBytes] at h
+  obtain ⟨bs', mt', fv', h1, h2⟩ := int64List_rt_exists a hne
+  rw [h] at h1
+  simp only [Res.ok.injEq, Prod.mk.injEq] at h1
+  obtain ⟨rfl, rfl, rfl⟩ := h1
+  exact h2
+
 end Banyan.C11
